@@ -1,19 +1,28 @@
 """C08 — concurrent tree walk (filesystem/fsloop) visits every selected node exactly once and then stops.
 
-Theorems: lean/Goat/Props/C08.lean about lean/Goat/Model/Loop.lean (producers = walk of an arbitrary
-tree with an arbitrary fresh-producer/inline oracle; queues + n consumers + closer as a transition
-system; invariant for all n, capacities, schedules), plus the structural tie lean/Goat/Tie/C08.lean
-(go/ast facts regenerated from the repository under test on every run).
+Theorems: lean/Goat/Props/C08.lean about lean/Goat/Model/Loop.lean (producer programs = walk of an
+arbitrary tree with an arbitrary fresh-producer/inline oracle, the producers' kill tests included;
+producers + queues + n consumers + closer + strict lifecycle + environment acts kill / error event /
+deadline as one transition system; invariant for all n, capacities, schedules with environment acts
+at any position), plus the structural tie lean/Goat/Tie/C08.lean (go/ast facts regenerated from the
+repository under test on every run).
 
 Tie of the protocol model to the code:
   (1) facts: order of the two reads in Consumer.Loop, Wait -> NextStep -> close,close in the closer,
-      Add-before-go, deferred Done — compared inside Lean by `decide`;
+      Add-before-go, deferred Done; the control skeletons of Consumer.Loop, Producer.Loop, processList,
+      processDir, processFile (where IsKilled is tested, lifecycle.Error(err) on every error path),
+      Loop.Wait / Errors / KillSlot, the scope events connected in Run, jobsync.Lifecycle's
+      Error / Kill / IsKilled / Errors / NewLifecycle and the constants — compared inside Lean;
   (2) gated schedule replay: harness/cmd/loop drives the REAL fsloop (built with -tags verif) with
       goroutines parked at the verifhook yield points / callbacks / ReadDir / filters and released in
-      the order of a schedule line; the same line drives the compiled Lean transition system
-      (m_loop); compared: every observation of every step and the final multiset of callbacks;
-  (3) ungated stress (shapes incl. wide 3000 > channel capacity 1000, limits 1..16, GOMAXPROCS) and
-      the two real users fshelper.Copy / fsi18loader.Load, judged by the property's own clauses.
+      the order of a schedule line, with scope Kill / Error events (eventscope.Trigger) and the
+      deadline injected between tokens and Wait probed; the same line drives the compiled Lean
+      transition system (m_loop); compared: every observation of every step — also after a kill —
+      and the final callbacks, Errors() and producer state;
+  (3) ungated stress (shapes incl. wide 3000 > channel capacity 1000, limits 1..16, GOMAXPROCS,
+      scope Kill / Error events at random moments) and the two real users fshelper.Copy /
+      fsi18loader.Load, judged by the property's own clauses; the real jobsync.Lifecycle's API
+      behaviour (strict Error, Kill, a short real deadline) against what the model assumes.
 """
 import concurrent.futures
 import glob
@@ -26,20 +35,33 @@ META = dict(
     level_claimed=dict(
         category="proof",
         text="Lean 4 theorems over all trees, filter predicates, fresh-producer/inline decisions, producer "
-             "interleavings, numbers of consumers, channel capacities and schedules: producers enqueue exactly the "
-             "selected nodes; invariant of the queue/consumer/closer protocol; exactly-once when Wait returns with an "
-             "empty error list, never repeated otherwise; Wait only after the last callback; at most `consumers` "
-             "callbacks at once (Pool.Add arithmetic); every failure recorded; no deadlock without a kill; and the "
-             "pinned consumer order loses an item (explicit schedule).  The protocol model is tied to /repo on every run "
-             "by go/ast order facts checked by `decide`, a gated schedule replay of the real goroutines against the "
-             "compiled model (step-by-step equality), and ungated stress.",
+             "interleavings, numbers of consumers, channel capacities and schedules, with the environment acts scope "
+             "Kill event / scope Error event / lifecycle deadline at any position of the schedule: producers enqueue "
+             "exactly the selected nodes; invariant of the producer/queue/consumer/closer/lifecycle protocol; "
+             "exactly-once when Wait returns with an empty Errors(), never repeated whatever happens; Wait enabled "
+             "exactly when every consumer has signed off (no callback running, also after a kill), nothing starts "
+             "afterwards; at most `consumers` callbacks at once (Pool.Add arithmetic); every callback error in "
+             "Errors() when Wait returns (including a callback that was running when something else killed the "
+             "lifecycle), every failed listing (Producer.Loop and inline descent) in Errors() or about to be reported "
+             "by a producer that is still running after a kill; a walk that ended early has a non-empty Errors(); "
+             "no deadlock without a kill; after a kill: bounded number of further actions, every consumer leaves "
+             "within 13 own actions, Wait returns, and the only non-final stuck state is a producer blocked on a full "
+             "channel (reachable: explicit schedule; excluded when the capacity covers the selected nodes); the pinned "
+             "consumer order loses an item (explicit schedule).  The model is tied to /repo on every run by go/ast "
+             "order facts and control skeletons checked inside Lean, a gated schedule replay of the real goroutines "
+             "with injected kills against the compiled model (step-by-step equality, also after the kill), the real "
+             "Lifecycle API, and ungated stress with random kills.",
         design_ref="DESIGN.md 3 C08"),
     level_note="Proof is about the protocol model. Trusted: Lean kernel (axioms propext/Classical.choice/Quot.sound), the "
                "atomicity of the modelled actions (channel operations, len(chan), RWMutex-guarded step, context cancel, "
                "WaitGroup) and sequential consistency of their interleaving, the correspondence of model and code "
                "(syntactic order facts + gated replay with one producer + ungated stress: bounded by the generators), "
-               "the gate scheduler and the canonicalisation in harness/cmd/loop. Outside the model: the lifecycle's "
-               "2-minute deadline and scope Kill/Error events (they end the walk early with a non-empty error list).",
+               "the gate scheduler and the canonicalisation in harness/cmd/loop. The lifecycle's deadline is a constant "
+               "(workers.DefaultTimeout, 2 min) on a private field: in the model it is an environment act at any moment; on the "
+               "real code it is injected in gated replays by swapping the private context for an expired-deadline one "
+               "(reflect/unsafe, all goroutines parked), and the real timer is exercised only on a stand-alone Lifecycle with a "
+               "short lifetime. Not a clause of the property and therefore only reported: after a kill a producer blocked "
+               "on a full channel (more than 1000 queued nodes) and the completion goroutine are never released.",
     technique="Lean 4 proof (invariant over a labelled transition system, induction on the tree) + structural facts "
               "(go/ast, decide) + gated schedule replay + stress",
 )
@@ -118,8 +140,13 @@ def _minimise(ctx, go, model, line, want_fail):
 
 
 AWK_HIST = r'''{ for (i = 1; i <= NF; i++) { t = $i
-  if (t == "|") { s = $(i+1); sub(/=.*/, "", s); h["summary " s]++; break }
-  if (t == "!killed") { h["obs !killed"]++; continue }
+  if (t == "|") { s = $(i+1); sub(/=.*/, "", s)
+    for (j = i + 1; j <= NF; j++) { u = $j
+      if (u ~ /^prods=/) { h["summary settled " u]++; s = "settled" }
+      if (u ~ /^errs=/) { k = "none"; if (u ~ /canceled$/) k = "canceled"; if (u ~ /deadline$/) k = "deadline"
+        h["errors ctx " k]++; if (u ~ /cb:[^;]*;cb:/) h["errors two-or-more callback errors"]++
+        if (u ~ /cb:/) h["errors callback"]++; if (u ~ /list:/) h["errors listing"]++ } }
+    h["summary " s]++; break }
   sub(/^c[0-9]+:/, "c:", t)
   if (t ~ /^c:cb[df]:/) t = substr(t, 1, 5)
   else if (t ~ /^p:(list|ff|fd):/) sub(/:[^:]*$/, "", t)
@@ -141,6 +168,10 @@ def _account(ctx, ops, impl, model, max_samples=3):
             n = o[i + 3:o.find(" ", i + 3)]
             ctx.histogram["consumers " + ("1" if n == "1" else "2-4" if len(n) == 1 and n <= "4" else "5-16")] += 1
             ncb = r.count(":cb")
+            if "x:ok" in r or "e:ok" in r or "t:ok" in r:
+                ctx.histogram["cases with an environment act"] += 1
+                if re.search(r":cb[df]:\S+ (?:[^|]* )?[xet]:ok", r):
+                    ctx.histogram["cases with an environment act after a callback started"] += 1
             ctx.note_case(o, nontrivial=ncb > 0 or " | done= " not in r and " | done=" in r)
             if len(ctx.samples) < max_samples and ncb > 1:
                 ctx.samples.append(dict(op=o.strip(), impl=r.strip(), model=rm.strip()))
@@ -202,6 +233,7 @@ def _stress(ctx, go, tier, seeds):
                 f = dict(t.split("=", 1) for t in l.split()[1:] if "=" in t)
                 ctx.histogram["stress shape=" + re.sub(r"^(random)\d+$", r"\1", f["shape"])] += 1
                 ctx.histogram["stress inject=" + f["inject"]] += 1
+                ctx.histogram["stress kill=" + f.get("kill", "0")] += 1
                 ctx.note_case("stress seed=%d %s" % (seed, l.split(" sel=")[0]), nontrivial=int(f.get("done", "0")) > 0)
                 if f["verdict"] != "ok":
                     fails.append(("VERIF_SEED=%d" % seed, l.strip()))
@@ -265,18 +297,28 @@ def _run(ctx, go):
     ctx.extra["facts"] = [l for l in facts.split("\n") if l.startswith("def ")]
     failed = ctx.lean_obligations(extra_modules=["Goat.Tie.C08"])
     model = ctx.build_model("m_loop")
-    n_cases = ctx.pick(60000, 1500000)
+    n_cases = ctx.pick(40000, 1200000)
     ctx.rule = ("gated: corpus/C08 + %d generated case lines (tree of <= 15 nodes incl. unlistable directories and "
                 "'.'/'..' entries, random reject-set filters or none, callbacks set or nil, 1..16 consumers, failing "
-                "callbacks, schedule of <= 75 coarse tokens: random / adversarial 'all consumers held in the gap, "
-                "producers finish, closer announces' / hold-one / free run) from VERIF_SEED, every step observation "
-                "and the final callback multiset compared with the Lean transition system; non-trivial = at least one "
-                "callback observed; distinct = distinct case lines.  stress: shapes x (consumers, producers) in "
-                "1..16 x GOMAXPROCS in {1,2,4,8,16}, random hash filters, 1/4 with an injected failure.  users: "
-                "fshelper.Copy and fsi18loader.Load on random memfs trees." % n_cases)
+                "callbacks, schedule of <= 90 coarse tokens incl. the environment acts x (scope Kill event), e (scope Error "
+                "event), t (deadline), the Wait probe w and the deterministic drain D; families: random / adversarial 'all "
+                "consumers held in the gap, producers finish, closer announces' / hold-one / free run / 'consumers held "
+                "inside callbacks, then an environment act or a failing callback kills, Wait probed, held callbacks return' "
+                "/ several failing callbacks in flight / environment act at a random point / unlistable directory in the "
+                "inline descent / dense environment acts / 1 in 500: a tree of 1001..1012 files (> channel capacity) with a "
+                "kill while the producer is blocked) from VERIF_SEED, every step observation — also after a kill — and the "
+                "final callbacks, Errors() and producer state compared with the Lean transition system; non-trivial = at "
+                "least one callback observed; distinct = distinct case lines.  stress: shapes x (consumers, producers) in "
+                "1..16 x GOMAXPROCS in {1,2,4,8,16}, random hash filters, 1/4 with an injected failure, 1/4 with a scope "
+                "Kill/Error event after a random delay or at the k-th callback start.  users: fshelper.Copy and "
+                "fsi18loader.Load on random memfs trees.  lifecycle: the real jobsync.Lifecycle API (14 checks)." % n_cases)
     ctx.log("gated replay of %d cases" % n_cases)
     mism = _gated(ctx, go, model, n_cases)
-    ctx.log("stress + users")
+    ctx.log("lifecycle API + stress + users")
+    rc, out = ctx.capture([go, "lifecycle"], timeout=120)
+    ctx.extra["lifecycle_api"] = out.strip()
+    ctx.evaluations += 14
+    lfail = None if (rc == 0 and "verdict=ok" in out) else (out.strip() or "rc=%d" % rc)
     sfails = _stress(ctx, go, ctx.tier if not ctx.quick() else "quick", ctx.pick([ctx.seed, ctx.seed + 1000, ctx.seed + 2000], [ctx.seed, ctx.seed + 1000]))
     ufails = _users(ctx, go, ctx.pick(3000, 100000))
     hfails = _hammer(ctx, go, ctx.pick(15000, 300000))
@@ -301,6 +343,10 @@ def _run(ctx, go):
         concrete = True
         ctx.violation("impl-vs-spec", "a real user of fsloop lost or duplicated work: " + l, lines=["# " + l],
                       annotations=["users: " + l], concrete=True)
+    if lfail:
+        ctx.violation("impl-vs-model", "jobsync.Lifecycle does not behave as the model's lifecycle transitions assume "
+                      "(strict Error = append then kill, Kill, deadline, Errors() = entries then ctx.Err()): " + lfail,
+                      lines=["# lifecycle " + lfail], annotations=["re-run: harness loop lifecycle"], concrete=False)
     for where, l in hfails[:2]:
         concrete = True
         ctx.violation("impl-vs-spec", "Wait returned with an empty error list but a selected node was never visited "
@@ -331,21 +377,39 @@ def _run(ctx, go):
         if err.count("DATA RACE"):
             ctx.notes.append("race detector reported %d data races during stress (not part of the verdict)" % err.count("DATA RACE"))
     ctx.assumptions += [
-        "gated replay uses Producents: 1 (a single producer, every directory listed inline) and trees below the channel "
-        "capacity, so no send blocks; multi-producer and blocking sends are covered by the theorems and by the ungated stress only",
-        "after the first failure the step-by-step comparison stops (what producers skip after a kill is timing dependent); "
-        "the run is then judged by the property's clauses only",
-        "the walk finishes within the lifecycle deadline workers.DefaultTimeout (2 min) and no scope Kill/Error event arrives",
+        "gated replay uses Producents: 1 (a single producer, every directory listed inline); several producers "
+        "(spawn) are covered by the theorems and by the ungated stress only; blocking sends are replayed on the "
+        "wide family (1001..1012 files) and the two corpus witnesses only",
+        "in gated replays environment acts arrive between coarse tokens (every goroutine parked at a yield point, in a "
+        "callback, at a gate or blocked in a send), not between two arbitrary machine instructions; arbitrary positions are "
+        "covered by the theorems (every Label position) and sampled by the ungated stress",
+        "the deadline of the real lifecycle (workers.DefaultTimeout = 2 min, a constant) is never waited for: gated replays "
+        "swap the private context for one whose deadline has expired; the real timer is only exercised on a stand-alone "
+        "jobsync.Lifecycle with a 20 ms lifetime (`loop lifecycle`)",
+        "runs that are not settled when the schedule ends and were killed are compared only up to the end of the schedule "
+        "(the free-running tail after a kill is timing dependent) and then judged by the property's clauses",
     ]
     ctx.trusted_base += [
-        "go/ast order facts (syntactic) for Consumer.Loop, the closer, Loop.Run, Producer.Loop/processDir",
+        "go/ast order facts and control skeletons (syntactic) for Consumer.Loop, the closer, Loop.Run/Wait/Errors/KillSlot, "
+        "Producer.Loop/processList/processDir/processFile, jobsync.Lifecycle Error/Kill/IsKilled/Errors/NewLifecycle",
         "gate scheduler of harness/cmd/loop (parks goroutines at verifhook yield points, callbacks, ReadDir and filter calls); "
-        "goroutine identity via runtime.Stack",
-        "atomicity and sequentially consistent interleaving of channel send/receive/len/close, Lifecycle.Step/NextStep/Error/IsKilled, Pool.Add/Done/Wait",
+        "goroutine identity and the 'blocked in chan send' state via runtime.Stack; eventscope.Trigger delivers scope events "
+        "synchronously; the reflect/unsafe swap of the lifecycle's private context is equivalent to its deadline firing",
+        "atomicity and sequentially consistent interleaving of channel send/receive/len/close, Lifecycle.Step/NextStep/Error/"
+        "IsKilled/Kill, context cancellation, Pool.Add/Done/Wait",
     ]
-    if ctx.histogram.get("summary killed", 0) == 0:
+    ctx.notes.append(
+        "finding (not a clause of C08, reported only): after a kill, a producer blocked in a send on a full channel (more than "
+        "1000 queued nodes) is never released because every consumer leaves at its next kill test; the producer goroutine and "
+        "the completion goroutine leak (Loop.Wait is not affected). Theorem producer_stuck_after_kill_reachable; replayed on the "
+        "real code by corpus/C08/kill.ops (5), summary prods=stuck: %d gated cases ended that way in this run"
+        % ctx.histogram.get("summary settled prods=stuck", 0))
+    if ctx.histogram.get("summary killed", 0) + ctx.histogram.get("errors ctx canceled", 0) == 0:
         ctx.notes.append("coverage gap: no gated case ended with a kill")
-    for k in ("obs c:exit", "obs c:gone", "obs k:closed", "obs c:cbd", "obs c:cbf", "obs p:fd", "obs p:ff"):
+    for k in ("obs c:exit", "obs c:gone", "obs k:closed", "obs c:cbd", "obs c:cbf", "obs p:fd", "obs p:ff", "obs x:ok",
+              "obs e:ok", "obs t:ok", "obs w:pending", "obs w:returned", "obs p:blocked", "summary settled prods=stuck",
+              "summary settled prods=done", "errors ctx deadline", "errors ctx canceled", "errors callback", "errors listing",
+              "errors two-or-more callback errors", "cases with an environment act after a callback started"):
         if ctx.histogram.get(k, 0) == 0:
             ctx.notes.append("coverage gap: observation kind '%s' never occurred" % k)
 
@@ -371,6 +435,11 @@ def replay(ctx, path):
                 rc = 1
         if l.startswith("hammer "):
             r, out = ctx.capture([go, "hammer", "1000000"])
+            print(out.strip())
+            if "verdict=ok" not in out:
+                rc = 1
+        if l.startswith("# lifecycle "):
+            r, out = ctx.capture([go, "lifecycle"])
             print(out.strip())
             if "verdict=ok" not in out:
                 rc = 1
